@@ -3,6 +3,7 @@ package stableopt
 import (
 	"bytes"
 	"fmt"
+	"regexp"
 	"strings"
 	"testing"
 
@@ -191,6 +192,9 @@ func subsetOf(path string, u, s protoreflect.Message) string {
 	return bad
 }
 
+// customNames matches the parenthesised extension names of generated schemas in a diff class.
+var customNames = regexp.MustCompile(`\([A-Za-z0-9_.]+\)`)
+
 type c21Env struct {
 	r    *vlib.Run
 	id   string
@@ -340,7 +344,7 @@ func (e *c21Env) checkFile() bool {
 			continue
 		}
 		if d := subsetOf("", ip.ProtoReflect(), sSites[i].Opts); d != "" {
-			r.Violation("c21.unlinked-value-differs", elemKindOf(us.Elem)+" "+us.Kind+": "+gen.DiffClass(d+": x"), e.id, witness(map[string]any{"element": us.Elem, "detail": d}))
+			r.Violation("c21.unlinked-value-differs", us.Kind+": "+customNames.ReplaceAllString(gen.DiffClass(d+": x"), "(custom option)"), e.id, witness(map[string]any{"element": us.Elem, "detail": d}))
 		}
 	}
 	// statement-level accounting against strict interpretation of exactly the statements that are gone
@@ -382,7 +386,7 @@ func (e *c21Env) checkFile() bool {
 				d = gen.Diff(ui, vi)
 			}
 			what := "reflects part of a statement it kept uninterpreted, or lacks part of one it removed"
-			sig := elemKindOf(us.Elem) + " " + us.Kind + ": " + gen.DiffClass(d)
+			sig := us.Kind + ": " + customNames.ReplaceAllString(gen.DiffClass(d), "(custom option)")
 			if at := emptyMessageLeft(ui, vi); at != "" {
 				// the signature of one specific defect, whatever the element kind
 				sig = "empty message left at `" + at + "` by a path statement that stayed uninterpreted"
